@@ -315,6 +315,25 @@ func partA(run *vrun.Run) {
 	vrun.ParallelFor(n, func(i int) {
 		judgeRoundTrip(run, genRoundTripIndex(run.Seed, i), kinds[i%4], fmt.Sprintf("a%d", i))
 	})
+	// boundary slide: pad entries push the size prefix of the entries that follow, byte by
+	// byte, across each multiple of 32 KiB of the uncompressed payload (the inflater ends a
+	// Read there, so a reader that does not insist on full reads loses sync exactly then)
+	slides := run.Pick(256, 3*256)
+	vrun.ParallelFor(slides, func(i int) {
+		r := gen.New(run.Seed, "C16/slide", i%8)
+		var m MIndex
+		remaining := 32768*(1+i/256) - 200 + i%256
+		for j := 0; remaining > 0; j++ {
+			n := remaining
+			if n > 60000 {
+				n = 60000
+			}
+			m = append(m, MFile{Path: S(fmt.Sprintf("/pad%d/", j) + strings.Repeat("p", n)), ModTime: tickTime(int64(j)).UnixNano()})
+			remaining -= n + 24
+		}
+		m = append(m, genSynthIndex(r, 6, 40, false)...)
+		judgeRoundTrip(run, m, "boundary-slide", fmt.Sprintf("s%d", i))
+	})
 	if run.Thorough() {
 		// the whole corpus, scanned by the real scanner
 		u := corpus.UtilsDir()
